@@ -438,3 +438,17 @@ def check(chk):
     # both pool classes take part in the stream accounting: an orphaned stream is released by its late answer, not by the timeout
     chk.rule('C09.pools', 'return_connection(stream_was_orphaned=True) does not decrement in_flight in either pool class (shared with C12)')
     chk.borrow('C12', {'C12.noorphan_dec': 'C09.pools'}, 'in_flight undercounts and ids beyond the protocol maximum are handed out')
+
+    # removing the pending entry and declaring the stream orphaned is one decision: a response processed between the two steps
+    # finds neither an entry nor an orphan, releases the id, and the id is then declared orphaned although it is free
+    chk.rule('C09.atomic', '_on_timeout removes the pending entry and registers the stream as orphaned inside one critical section of the connection lock')
+    ot_ = cluster.func('ResponseFuture._on_timeout')
+    pops_ = [c_ for c_ in body_walk(ot_) if isinstance(c_, ast.Call) and src(c_.func).endswith('_requests.pop')]
+    adds_ = [c_ for c_ in body_walk(ot_) if isinstance(c_, ast.Call) and src(c_.func).endswith('orphaned_request_ids.add')]
+    if len(pops_) != 1 or len(adds_) != 1:
+        raise AnalysisError('_on_timeout: pop / orphan registration not found')
+    reg_p = [id(w) for l, w in held(pops_[0]) if l[-1:] == ('lock',)]
+    reg_a = [id(w) for l, w in held(adds_[0]) if l[-1:] == ('lock',)]
+    chk.judge(bool(reg_p) and bool(set(reg_p) & set(reg_a)), 'C09.atomic', ot_, '_on_timeout: _requests.pop and orphaned_request_ids.add in one locked region',
+              'the pending entry is removed outside the lock and the orphan registered later under it: a response processed in between releases the stream id (no entry, not yet '
+              'orphaned) without decrementing in_flight, and the id then sits in request_ids and in orphaned_request_ids at once')
